@@ -66,11 +66,8 @@ func (p *pp) Print(args ...interface{}) {
 		// The outermost Unsafe() wins, also in a nested printer.
 		np.override = overrideUnsafe
 	}
+	defer p.endNested(np)
 	np.doPrint(args)
-	p.buf = np.buf
-	np.buf = buffer{}
-	np.override = noOverride
-	np.free()
 }
 
 func (p *pp) Printf(format string, arg ...interface{}) {
@@ -81,7 +78,16 @@ func (p *pp) Printf(format string, arg ...interface{}) {
 		// The outermost Unsafe() wins, also in a nested printer.
 		np.override = overrideUnsafe
 	}
+	defer p.endNested(np)
 	np.doPrintf(format, arg)
+}
+
+// endNested hands the buffer borrowed by the nested printer np back to p
+// and recycles np. It is deferred so that the hand-back also happens when
+// the nested print panics (a nested panic propagates, as in fmt, and is
+// contained further up): p must not continue on a stale copy of a buffer
+// that np has already appended to.
+func (p *pp) endNested(np *pp) {
 	p.buf = np.buf
 	np.buf = buffer{}
 	np.override = noOverride
